@@ -517,6 +517,10 @@ impl Property for C19Prop {
             (format!("{PRELUDE}l := idf({ex}); r := idf({ey}); (l == r, l != r, r == l)"), equal, "runtime-triple"),
             (format!("{PRELUDE}match ({ex}) {{ ({ey}) => true, => false, }}"), equal, "match-value"),
             (format!("{PRELUDE}match idf({ex}) {{ 12345, idf({ey}) => true, => false, }}"), equal, "match-value-runtime"),
+            (format!("{PRELUDE}match ({ex}) {{ 12345, ({ey}) => true, => false, }}"), equal, "match-value-second-candidate"),
+            (format!("{PRELUDE}match ({ex}) {{ ({ey}), \"other\" => true, => false, }}"), equal, "match-value-first-candidate"),
+            (format!("{PRELUDE}l := {ex}; m := match l {{ 12345, [12345], ({ey}) => true, 54321 => false, => false, }}; m"), equal, "match-value-bound-constant"),
+            (format!("{PRELUDE}match ({ex}) {{ 12345 => false, ({ey}) => true, => false, }}"), equal, "match-value-second-arm"),
             (format!("{PRELUDE}[{ex}] == [{ey}]"), equal, "inside-array"),
             (format!("{PRELUDE}(1, {ex}) == (1, {ey})"), equal, "inside-tuple"),
             (format!("{PRELUDE}struct{{k := {ex}}} == struct{{k := {ey}}}"), equal, "inside-struct"),
